@@ -333,12 +333,12 @@ Proof.
   assert (~ is_index (InCache cp)) as Hcp by (intro H; eapply index_not_content; [exact H|eexists; reflexivity]).
   assert (forall A (r : res A), all_steps noidx (unlink_quiet (w_tmp w) r)) as Hunl.
   { intros A r. unfold unlink_quiet. cbn [all_steps]. split; [intros lx ->; exact Ht|intros; exact I]. }
+  unfold trim, publish. apply all_steps_bind;
+    [destruct (w_map w) as [sz|]; [destruct (w_pos w <? sz)|]; try exact I; apply all_steps_step_ok; intros lx ->; exact Ht|].
+  intros rt; destruct rt; try apply Hunl.
   cbn [all_steps]. split.
   - intros lx Hl. cbn [may_touch] in Hl. apply in_map_iff in Hl as [q [<- Hq]]. exact (content_prefix_not_index _ _ q Hq).
   - intros r0. destruct r0; try apply Hunl.
-    all: apply all_steps_bind;
-      [destruct (w_map w) as [sz|]; [destruct (w_pos w <? sz)|]; try exact I; apply all_steps_step_ok; intros lx ->; exact Ht|].
-    all: intros rt; destruct rt; try apply Hunl.
     all: cbn [all_steps]; split; [intros lx [->| ->]; assumption|].
     all: intros r; destruct r; try exact I.
     all: cbn [all_steps]; split; [intros lx []|]; intros r2; destruct r2 as [| |[|]| | | |]; apply Hunl.
